@@ -1,6 +1,9 @@
 package rules
 
 import (
+	"bytes"
+	"go/ast"
+	"go/printer"
 	"fmt"
 	"go/token"
 	"go/types"
@@ -478,4 +481,12 @@ func namedTypeName(t types.Type) string {
 		return n.Obj().Name()
 	}
 	return t.String()
+}
+
+func typesExprString(e ast.Expr) string { return types.ExprString(e) }
+
+func stmtStr(s ast.Stmt) string {
+	var buf bytes.Buffer
+	printer.Fprint(&buf, token.NewFileSet(), s)
+	return buf.String()
 }
